@@ -5,6 +5,7 @@ package sim
 
 import (
 	"context"
+	"crypto/sha256"
 	"encoding/json"
 	"fmt"
 	"os"
@@ -443,7 +444,18 @@ func (c *Chain) Block(txs [][]byte, dt time.Duration) (res *BlockResult, err err
 	h := c.Height + 1
 	t := c.Time.Add(dt)
 	votes := []abci.VoteInfo{}
+	var rctx sdk.Context
+	if c.Height > 0 {
+		rctx = c.Ctx()
+	}
 	for i, vs := range c.Cfg.Validators {
+		if c.Height > 0 {
+			// a real CometBFT commit only contains validators that still exist (a validator removed after
+			// unbonding with zero shares is gone from the set)
+			if _, err := c.App.StakingKeeper.GetValidatorByConsAddr(rctx, sdk.ConsAddress(c.ConsKeys[i].PubKey().Address())); err != nil {
+				continue
+			}
+		}
 		flag := cmtproto.BlockIDFlagCommit
 		if c.Absent[i] {
 			flag = cmtproto.BlockIDFlagAbsent
@@ -457,8 +469,9 @@ func (c *Chain) Block(txs [][]byte, dt time.Duration) (res *BlockResult, err err
 	if len(c.ConsKeys) > 0 {
 		proposer = c.ConsKeys[c.Proposer%len(c.ConsKeys)].PubKey().Address()
 	}
-	hash := make([]byte, 32)
-	copy(hash, fmt.Sprintf("blk-%d-%d", h, t.UnixNano()))
+	// the first byte of the block hash feeds the rolling seed: derive a varying, deterministic hash
+	hsum := sha256.Sum256([]byte(fmt.Sprintf("blk-%d-%d-%d", h, t.UnixNano(), len(txs))))
+	hash := hsum[:]
 	req := &abci.RequestFinalizeBlock{
 		Height: h, Time: t, Txs: txs, Hash: hash, ProposerAddress: proposer,
 		DecidedLastCommit: abci.CommitInfo{Votes: votes}, NextValidatorsHash: hash,
